@@ -49,6 +49,32 @@ def WrapKind.name : WrapKind → Str
   | .iterable => "Iterable".toList
   | .iterator => "Iterator".toList
 
+/-- the parameterized core types of the fragment -/
+inductive TKind where
+  | integer | string | boolean | enum | regexp | pattern | variant | array | hash | collection
+  | wrap (k : WrapKind)
+  deriving DecidableEq, Repr
+
+def TKind.name : TKind → Str
+  | .integer => "Integer".toList
+  | .string => "String".toList
+  | .boolean => "Boolean".toList
+  | .enum => "Enum".toList
+  | .regexp => "Regexp".toList
+  | .pattern => "Pattern".toList
+  | .variant => "Variant".toList
+  | .array => "Array".toList
+  | .hash => "Hash".toList
+  | .collection => "Collection".toList
+  | .wrap k => k.name
+
+def allKinds : List TKind :=
+  [.integer, .string, .boolean, .enum, .regexp, .pattern, .variant, .array, .hash, .collection,
+   .wrap .optional, .wrap .notUndef, .wrap .type_, .wrap .sensitive, .wrap .iterable, .wrap .iterator]
+
+/-- `coreTypes[name]` restricted to the parameterized types of the fragment -/
+def kindOf (n : Str) : Option TKind := allKinds.find? fun k => k.name == n
+
 inductive Ty where
   | named (n : Str)
   | int (lo hi : Int)
@@ -99,7 +125,7 @@ def plainNames : List Str :=
 
 /-! ### printing -/
 
-def tname (s : String) (ps : List Val) : Val := .tyx s.toList (if ps.isEmpty then none else some ps)
+def tname (k : TKind) (ps : List Val) : Val := .tyx k.name (if ps.isEmpty then none else some ps)
 
 /-- `IntegerType.SizeParameters` -/
 def sizeParams (lo hi : Int) : List Val := [.int lo, if hi = i64max then .dflt else .int hi]
@@ -121,33 +147,33 @@ mutual
 /-- the expression `Name` / `Name[p, …]` that `TypeToString` writes -/
 def tyExpr : Ty → Val
   | .named n => .tyx n none
-  | .int lo hi => tname "Integer" (intParams lo hi)
-  | .strSz lo hi => tname "String" (intParams lo hi)
-  | .strVal _ => .tyx "String".toList none      -- by specification prints as plain String
-  | .bool none => .tyx "Boolean".toList none
-  | .bool (some b) => tname "Boolean" [.bool b]
-  | .enum vs ci => tname "Enum" (vs.map Val.str ++ (if ci then [.bool true] else []))
-  | .regexp s => tname "Regexp" (if s.isEmpty then [] else [.regexp s])
-  | .pattern srcs => tname "Pattern" (srcs.map Val.regexp)
+  | .int lo hi => tname .integer (intParams lo hi)
+  | .strSz lo hi => tname .string (intParams lo hi)
+  | .strVal _ => tname .string []                -- by specification prints as plain String
+  | .bool none => tname .boolean []
+  | .bool (some b) => tname .boolean [.bool b]
+  | .enum vs ci => tname .enum (vs.map Val.str ++ (if ci then [.bool true] else []))
+  | .regexp s => tname .regexp (if s.isEmpty then [] else [.regexp s])
+  | .pattern srcs => tname .pattern (srcs.map Val.regexp)
   | .wrap k t =>
-    if t.isAny then .tyx k.name none
+    if t.isAny then tname (.wrap k) []
     else
       match k, t with
-      | .optional, .strVal s => .tyx k.name (some [.str s])
-      | .notUndef, .strVal s => .tyx k.name (some [.str s])
-      | _, _ => .tyx k.name (some [tyExpr t])
-  | .variant ts => .tyx "Variant".toList (match ts with | [] => none | _ => some (tyExprs ts))
+      | .optional, .strVal s => tname (.wrap k) [.str s]
+      | .notUndef, .strVal s => tname (.wrap k) [.str s]
+      | _, _ => tname (.wrap k) [tyExpr t]
+  | .variant ts => tname .variant (tyExprs ts)
   | .array t lo hi =>
-    if t.isUnit ∧ lo = 0 ∧ hi = 0 then .tyx "Array".toList (some (sizeParams lo hi))
+    if t.isUnit ∧ lo = 0 ∧ hi = 0 then tname .array (sizeParams lo hi)
     else
       let el : List Val := if !t.isAny ∨ (lo = 0 ∧ hi = 0) then [tyExpr t] else []
       let sz : List Val := if lo = 0 ∧ hi = i64max then [] else sizeParams lo hi
-      .tyx "Array".toList (if (el ++ sz).isEmpty then none else some (el ++ sz))
+      tname .array (el ++ sz)
   | .hash k v lo hi =>
-    if k.isAny ∧ v.isAny ∧ lo = 0 ∧ hi = i64max then .tyx "Hash".toList none
-    else if k.isUnit ∧ v.isUnit ∧ lo = 0 ∧ hi = 0 then .tyx "Hash".toList (some [.int 0, .int 0])
-    else .tyx "Hash".toList (some (tyExpr k :: tyExpr v :: (if lo = 0 ∧ hi = i64max then [] else sizeParams lo hi)))
-  | .collection lo hi => tname "Collection" (if lo = 0 ∧ hi = i64max then [] else sizeParams lo hi)
+    if k.isAny ∧ v.isAny ∧ lo = 0 ∧ hi = i64max then tname .hash []
+    else if k.isUnit ∧ v.isUnit ∧ lo = 0 ∧ hi = 0 then tname .hash [.int 0, .int 0]
+    else tname .hash (tyExpr k :: tyExpr v :: (if lo = 0 ∧ hi = i64max then [] else sizeParams lo hi))
+  | .collection lo hi => tname .collection (if lo = 0 ∧ hi = i64max then [] else sizeParams lo hi)
 def tyExprs : List Ty → List Val
   | [] => []
   | t :: ts => tyExpr t :: tyExprs ts
@@ -269,37 +295,42 @@ where argsDepth : List Arg → Nat
   | [] => 0
   | a :: as => max (argDepth a) (argsDepth as)
 
-/-- the positional creator of a core type (`ResolveWithParams`) -/
-def create (rxOK : Str → Bool) (n : Str) (args : List Arg) : Option Ty :=
+def wrapOf (k : WrapKind) (args : List Arg) : Option Ty :=
+  match args with
+  | [.ty t] => some (.wrap k t)
+  | [.str s] =>
+    if k = .optional ∨ k = .notUndef then some (.wrap k (if s.isEmpty then tyString else .strVal s)) else none
+  | _ => none
+
+/-- the positional creator of a core type -/
+def createK (rxOK : Str → Bool) (kd : TKind) (args : List Arg) : Option Ty :=
   let fuel := argDepth (.arr args) + 1
-  if n = "Integer".toList then
+  match kd with
+  | .integer =>
     match args with
     | [a] => (intOr i64min a).bind fun lo => (newInt lo i64max).map fun r => .int r.1 r.2
     | [a, b] => (intOr i64min a).bind fun lo => (intOr i64max b).bind fun hi => (newInt lo hi).map fun r => .int r.1 r.2
     | _ => none
-  else if n = "String".toList then
+  | .string =>
     match args with
     | [.str s] => some (if s.isEmpty then tyString else .strVal s)
     | [.ty (.int lo hi)] => newStr lo hi
     | [.int m] => (newInt m i64max).bind fun _ => newStr m i64max
     | [.int a, .int b] => newStr a b
     | _ => none
-  else if n = "Boolean".toList then
+  | .boolean =>
     match args with
     | [.bool b] => some (.bool (some b))
     | _ => none
-  else if n = "Enum".toList then
-    (enumArgs fuel args).bind fun r => newEnum r.1 r.2
-  else if n = "Regexp".toList then
+  | .enum => (enumArgs fuel args).bind fun r => newEnum r.1 r.2
+  | .regexp =>
     match args with
     | [.str s] => if s.isEmpty then some (.regexp []) else if rxOK s then some (.regexp s) else none
     | [.rx s] => some (.regexp s)
     | _ => none
-  else if n = "Pattern".toList then
-    (patArgs rxOK fuel args).map .pattern
-  else if n = "Variant".toList then
-    variantArgs fuel args
-  else if n = "Array".toList then
+  | .pattern => (patArgs rxOK fuel args).map .pattern
+  | .variant => variantArgs fuel args
+  | .array =>
     let (el, sz) : Option Ty × List Arg :=
       match args with
       | .ty t :: rest => (some t, rest)
@@ -315,7 +346,7 @@ def create (rxOK : Str → Bool) (n : Str) (args : List Arg) : Option Ty :=
         else (newInt lo hi).map fun r => .array t r.1 r.2
       | _, _ => none
     | _ => none
-  else if n = "Hash".toList then
+  | .hash =>
     if args.length = 1 ∨ args.length > 4 then none
     else
       match args with
@@ -338,46 +369,39 @@ def create (rxOK : Str → Bool) (n : Str) (args : List Arg) : Option Ty :=
             else (newInt lo hi).map fun r => .hash tyAny tyAny r.1 r.2
           | _, _ => none
         | _ => some (.hash tyAny tyAny 0 i64max)     -- three or four size arguments: `switch` has no arm, the size stays nil
-  else if n = "Collection".toList then
+  | .collection =>
     match args with
     | [.dflt] => some (.collection 0 i64max)
     | [a] => (sizes1 a).map fun r => .collection r.1 r.2
     | [a, b] => (sizes2 a b).map fun r => .collection r.1 r.2
     | _ => none
-  else
-    let wrapOf (k : WrapKind) : Option Ty :=
-      match args with
-      | [.ty t] => some (.wrap k t)
-      | [.str s] =>
-        if k = .optional ∨ k = .notUndef then some (.wrap k (if s.isEmpty then tyString else .strVal s)) else none
-      | _ => none
-    if n = "Optional".toList then wrapOf .optional
-    else if n = "NotUndef".toList then wrapOf .notUndef
-    else if n = "Type".toList then wrapOf .type_
-    else if n = "Sensitive".toList then wrapOf .sensitive
-    else if n = "Iterable".toList then wrapOf .iterable
-    else if n = "Iterator".toList then wrapOf .iterator
-    else none
+  | .wrap k => wrapOf k args
+
+/-- `ResolveWithParams(c, name, args)` -/
+def create (rxOK : Str → Bool) (n : Str) (args : List Arg) : Option Ty :=
+  match kindOf n with
+  | some kd => createK rxOK kd args
+  | none => none
+
+/-- the default type of a parameterized core type -/
+def defaultOf : TKind → Ty
+  | .integer => .int i64min i64max
+  | .string => tyString
+  | .boolean => .bool none
+  | .enum => .enum [] false
+  | .regexp => .regexp []
+  | .pattern => .pattern []
+  | .variant => .variant []
+  | .array => .array tyAny 0 i64max
+  | .hash => .hash tyAny tyAny 0 i64max
+  | .collection => .collection 0 i64max
+  | .wrap k => .wrap k tyAny
 
 /-- `Resolve(c, name)` for a bare name: the default type of that name -/
 def resolveName (n : Str) : Option Ty :=
-  if n = "Integer".toList then some (.int i64min i64max)
-  else if n = "Boolean".toList then some (.bool none)
-  else if n = "Enum".toList then some (.enum [] false)
-  else if n = "Regexp".toList then some (.regexp [])
-  else if n = "Pattern".toList then some (.pattern [])
-  else if n = "Variant".toList then some (.variant [])
-  else if n = "Array".toList then some (.array tyAny 0 i64max)
-  else if n = "Hash".toList then some (.hash tyAny tyAny 0 i64max)
-  else if n = "Collection".toList then some (.collection 0 i64max)
-  else if n = "Optional".toList then some (.wrap .optional tyAny)
-  else if n = "NotUndef".toList then some (.wrap .notUndef tyAny)
-  else if n = "Type".toList then some (.wrap .type_ tyAny)
-  else if n = "Sensitive".toList then some (.wrap .sensitive tyAny)
-  else if n = "Iterable".toList then some (.wrap .iterable tyAny)
-  else if n = "Iterator".toList then some (.wrap .iterator tyAny)
-  else if plainNames.contains n then some (.named n)
-  else none
+  match kindOf n with
+  | some kd => some (defaultOf kd)
+  | none => if plainNames.contains n then some (.named n) else none
 
 mutual
 /-- `DeferredType.Resolve` -/
